@@ -10,7 +10,8 @@ O5 == O4 + NChain
 O6 == O5 + NRandom
 O7 == O6 + NShortSig
 O8 == O7 + NSigWidth
-Count == O8 + NAlWords
+O9 == O8 + NAlWords
+Count == O9 + NVWidth
 ItemAt(g) ==
   IF g <= O1 THEN PresenceAt(g)
   ELSE IF g <= O2 THEN BoundaryAt(g - O1)
@@ -20,7 +21,8 @@ ItemAt(g) ==
   ELSE IF g <= O6 THEN RandomAt(g - O5)
   ELSE IF g <= O7 THEN ShortSigAt(g - O6)
   ELSE IF g <= O8 THEN SigWidthAt(g - O7)
-  ELSE AlWordAt(g - O8)
+  ELSE IF g <= O9 THEN AlWordAt(g - O8)
+  ELSE VWidthAt(g - O9)
 VARIABLE n
 INSTANCE GenBase
 =============================================================================
